@@ -163,7 +163,8 @@ func (h *killedHandler) handleRestart() {
 	} else {
 		h.ctx.restarting = nil
 		atomic.StoreInt32(&h.ctx.state, running)
-		h.ctx.tell(true, h.ctx.parent, new(vivid.OnLaunch))
+		// 重启后的新一轮生命周期从自身的 OnLaunch 开始（此前误发给了父 Actor）
+		h.ctx.tell(true, h.ctx.ref, new(vivid.OnLaunch))
 		h.ctx.mailbox.Resume()
 
 		// 通知事件流
